@@ -110,7 +110,7 @@ PROPERTIES = {
     ),
     "C14": dict(
         modules=["contracts.c14_builder", "contracts.c14_generated"],
-        bounded=[_bounded.lazy("contracts.e2e_builder", "bounded_builder")],
+        bounded=[_bounded.lazy("contracts.e2e_builder", "bounded_builder"), _bounded.lazy("contracts.e2e_fuzz_builder", "bounded_generated_expressions")],
         explanation="run-time builder: fresh variable names, argument/field-name nodes under contract; the document-assembly methods the generator emits into every client (extracted from a freshly generated async and sync client on every run) under contract; whole documents by an end-to-end bounded stand-in",
         assumptions=["termination of _format_variable_name's renaming loop is not proved"],
     ),
